@@ -84,6 +84,28 @@ impl DeepSc {
             let inner = DeepSc { outer: None, unit: None, tail: "none".into(), fault: None, ..self.clone() }.text().0;
             return (outer.replacen('\u{1}', &inner, 1), false);
         }
+        if let Some(code) = self.shape.strip_prefix("array-sib-").or_else(|| self.shape.strip_prefix("object-sib-")).or_else(|| self.shape.strip_prefix("mixed-sib-")) {
+            // every level has siblings before and/or after the deep child: n = none, s = a scalar, c = a non-empty container
+            let (pre, post) = (code.as_bytes().first().copied().unwrap_or(b'n'), code.as_bytes().get(1).copied().unwrap_or(b'n'));
+            let n = self.depth;
+            let obj = |lvl: u64| self.shape.starts_with("object") || (self.shape.starts_with("mixed") && lvl % 2 == 1);
+            let mut s = String::with_capacity(n as usize * 24 + 8);
+            for i in 0..n {
+                if obj(i) { s.push('{'); match pre { b's' => s.push_str("\"p\":0,"), b'c' => s.push_str("\"p\":[0],"), _ => {} } s.push_str("\"k\":"); }
+                else { s.push('['); match pre { b's' => s.push_str("0,"), b'c' => s.push_str("[0],"), _ => {} } }
+            }
+            s.push('1');
+            for j in 0..n {
+                let lvl = n - 1 - j;
+                if obj(lvl) { match post { b's' => s.push_str(",\"q\":0"), b'c' => s.push_str(",\"q\":{\"c\":0}"), _ => {} } s.push('}'); }
+                else { match post { b's' => s.push_str(",0"), b'c' => s.push_str(",[0]"), _ => {} } s.push(']'); }
+            }
+            return match self.tail.as_str() {
+                "garbage-after-root" => { s.push_str(" x"); (s, false) }
+                "fail-after-root" => (s, true),
+                _ => (s, false),
+            };
+        }
         let n = self.depth;
         let wide = self.shape == "wide-closed";
         let mut s = String::with_capacity((n as usize) * 7 + 16);
@@ -145,7 +167,7 @@ pub fn child_main(json: &str) -> i32 {
             "drop" => { if k < evs.len() { evs.remove(k); } }
             _ => {}
         }
-        let mut s = StreamSc { entry: match sc.via.as_str() { "slice" => Entry::SliceWith, "str" if kind != "fail" => Entry::StrWith, _ => Entry::ParseWith }, target: Target::Value, opts: sc.opts, src: Src::Events(evs), faults: vec![], context: 0, hint: 0 };
+        let mut s = StreamSc { entry: match sc.via.as_str() { "slice" => Entry::SliceWith, "str" if kind != "fail" => Entry::StrWith, _ => Entry::ParseWith }, target: Target::Value, opts: sc.opts, src: Src::Events(evs), faults: vec![], context: 0, hint: 0, reenter_at: 0 };
         if s.entry == Entry::SliceWith {
             let failed = matches!(&s.src, Src::Events(e) if matches!(e.last(), Some(Ev::Fail(_))));
             s.normalise();
@@ -156,18 +178,18 @@ pub fn child_main(json: &str) -> i32 {
         // `via` may name any of the 13 entry points
         let mut evs: Vec<Ev> = text.chars().map(|c| Ev::Item(c, c.len_utf8() as u32)).collect();
         if fails { evs.push(Ev::Fail(9)); }
-        let mut s = StreamSc { entry, target: Target::Value, opts: sc.opts, src: Src::Events(evs), faults: vec![], context: 0, hint: 0 };
+        let mut s = StreamSc { entry, target: Target::Value, opts: sc.opts, src: Src::Events(evs), faults: vec![], context: 0, hint: 0, reenter_at: 0 };
         s.normalise();
         if fails && entry.bytes() { if let Src::Bytes(b) = &mut s.src { b.push(0xff); } }
         s
     } else { match sc.via.as_str() {
         // on the byte path a failing stream is an ill-formed byte
-        "slice" => { let mut b = text.into_bytes(); if fails { b.push(0xff); } StreamSc { entry: Entry::SliceWith, target: Target::Value, opts: sc.opts, src: Src::Bytes(b), faults: vec![], context: 0, hint: 0 } }
-        "str" if !fails => StreamSc { entry: Entry::StrWith, target: Target::Value, opts: sc.opts, src: Src::Events(text.chars().map(|c| Ev::Item(c, c.len_utf8() as u32)).collect()), faults: vec![], context: 0, hint: 0 },
+        "slice" => { let mut b = text.into_bytes(); if fails { b.push(0xff); } StreamSc { entry: Entry::SliceWith, target: Target::Value, opts: sc.opts, src: Src::Bytes(b), faults: vec![], context: 0, hint: 0, reenter_at: 0 } }
+        "str" if !fails => StreamSc { entry: Entry::StrWith, target: Target::Value, opts: sc.opts, src: Src::Events(text.chars().map(|c| Ev::Item(c, c.len_utf8() as u32)).collect()), faults: vec![], context: 0, hint: 0, reenter_at: 0 },
         _ => {
             let mut evs: Vec<Ev> = text.chars().map(|c| Ev::Item(c, c.len_utf8() as u32)).collect();
             if fails { evs.push(Ev::Fail(9)); }
-            StreamSc { entry: Entry::ParseWith, target: Target::Value, opts: sc.opts, src: Src::Events(evs), faults: vec![], context: 0, hint: 0 }
+            StreamSc { entry: Entry::ParseWith, target: Target::Value, opts: sc.opts, src: Src::Events(evs), faults: vec![], context: 0, hint: 0, reenter_at: 0 }
         }
     } };
     std::panic::set_hook(Box::new(|_| {}));
